@@ -130,7 +130,7 @@ TIE_NEEDS = {
     'C03': ['tie_Timestamp_Add', 'tie_Timestamp_Sub', 'tie_MaxRetention', 'tie_intervalForWrite'],
     'C04': ['tie_constants', 'tie_Timestamp_Add', 'tie_Timestamp_Sub', 'tie_MaxRetention', 'tie_floorMod', 'tie_interval'],
     'C06': ['tie_constants', 'tie_pointIndex', 'tie_pointOffsetAt', 'tie_Header_Size', 'tie_ExpectedFileSize'],
-    'C07': ['tie_MaxRetention', 'tie_validate'],
+    'C07': ['tie_MaxRetention', 'tie_validate', 'tie_fillOffset'],
     'C15': ['tie_ExpectedFileSize'],
     'C19': ['tie_constants'],
     'C20': ['tie_Timestamp_Add', 'tie_Timestamp_Truncate'],
